@@ -27,7 +27,10 @@ def set_set_component(ex, self, idx, value=NOVALUE, *a, **k):
     """model of Set.setComponentByPosition: stores the (type-checked) value at idx or refuses with PyAsn1Error"""
     if ex.choose(ex.fresh('Set.setComponentByPosition.raises', BoolSort()), 'set-raises'):
         raise _Raise(ExcV('PyAsn1Error'))
-    self.fields['_componentValues'].items[concrete(idx)] = value
+    items = self.fields['_componentValues'].items
+    if not -len(items) <= concrete(idx) < len(items):
+        raise _Raise(ExcV('IndexError'))            # python list semantics of the slots
+    items[concrete(idx)] = value
     return self
 
 
@@ -41,12 +44,15 @@ def inv_single(cur_expr):
 CHOICE_SET = Contract(
     id='type.univ::Choice.setComponentByPosition', file=U, qual='Choice.setComponentByPosition', properties=['C19', 'C04'],
     params=dict(cur=POneOf(None, 0, 1, 2),
-                self=PDerived(lambda ex, env: Obj('Choice', {'_currentIdx': env['cur'], '_componentValues': slots(ex, env)},
-                                                  name='self')),
-                idx=POneOf(0, 1, 2), value=PConst(Obj('Asn1Value', {'value': Int('new')}, name='newValue')),
+                self=PDerived(lambda ex, env: Obj('Choice', {'_currentIdx': env['cur'], '_componentValues': slots(ex, env),
+                                                             '_componentTypeLen': NALT}, name='self')),
+                idx=POneOf(0, 1, 2, -1, -2, -3, -4), value=PConst(Obj('Asn1Value', {'value': Int('new')}, name='newValue')),
                 verifyConstraints=PConst(True), matchTags=PConst(True), matchConstraints=PConst(True)),
     globals={'Set': {'setComponentByPosition': FnV(set_set_component, 'Set.setComponentByPosition'), '__name__': 'Set'}},
-    ensures=[('selected', 'self._currentIdx == idx and self._componentValues[idx] is value')] +
+    # a negative position counts from the last alternative (python list semantics of the slots); the selection is kept in
+    # its non-negative form, so that the same alternative addressed both ways is one slot
+    ensures=[('selected', 'self._currentIdx == (old(idx) if old(idx) >= 0 else old(idx) + 3) and self._currentIdx >= 0 and '
+                          'self._componentValues[self._currentIdx] is value')] +
             [('single-alternative.%d' % j, c) for j, c in enumerate(inv_single('self._currentIdx'))] +
             [('returns-self', 'result is self')],
     raise_ensures={'PyAsn1Error': ['self._currentIdx == cur'] + inv_single('cur')},
